@@ -33,6 +33,9 @@ func runC13(c *Ctx) {
 	c13TypeAssert(c)
 	// a cache hit must carry THIS query's ID and question
 	c.importRules(runC12, "C12", map[string]string{"hit-reply": "cache-hit-reply"})
+	// the client's option is echoed as it came: an option whose family / address were rewritten while the source prefix
+	// stayed (round-5 seed c13k) cannot be packed, and the query gets no reply at all
+	c.importRules(runC10, "C10", map[string]string{"readonly": "ecs-readonly"})
 }
 
 // c13QuestionAccess: the database handler never indexes the question section directly.
